@@ -5,7 +5,7 @@ CONSTANTS
   NCur = 1
   InitIds = {0, 3}
   DirIds = {0, 1}
-  MaxDepth = 6
+  MaxDepth = 3
   PairMode = 1
   WithRej = TRUE
   EmitOn = FALSE
